@@ -26,7 +26,7 @@ from harness import common
 from harness.common import Model
 
 PID = "C06"
-TRANSLATORS = ["T-purefuns"]
+TRANSLATORS = ["T-purefuns", "T-wordops"]   # bitvec.py -> Gen/GenBitvecGuards.v, sevm.py -> Gen/GenWordOps.v
 
 # Genuine defects of halmos found by this check on the unchanged tree (same format as
 # known_findings.json; the coordinator decides between a fix: commit and that file).  A failing
@@ -482,7 +482,7 @@ def stack_value(i, kind, v):
     return mk_operand(i, kind)
 
 
-def finish_run(exs, case):
+def finish_run(exs, case, junk=()):
     _disarm()
     if len(exs) != 1:
         return {"st": f"paths:{len(exs)}"}
@@ -495,6 +495,7 @@ def finish_run(exs, case):
     out = observe(ex.st.stack[-1], case)
     out["st"] = "ok"
     out["depth"] = len(ex.st.stack)
+    out["rest_ok"] = len(ex.st.stack) == len(junk) + 1 and all(x is y for x, y in zip(ex.st.stack, junk))
     conds = list(ex.path.conditions.keys())
     out["axioms"] = [[bool(zeval(c, env_of(case, j))) for c in conds] for j in range(len(case["vals"]))]
     return out
@@ -505,10 +506,15 @@ def impl_l2(case):
     if w["sebc"] != SEBC:
         return {"st": f"config:smt_exp_by_const={w['sebc']}"}
     ex = mk_exec(bytes([OPCODE[case["op"]], 0x00]))
+    from halmos.bitvec import HalmosBitVec
+
     vals = [stack_value(i, k, v) for i, (k, v) in enumerate(case["ops"])]
+    # the rest of the stack below the operands: must be left untouched (theorem C06_stack_frame*)
+    junk = [HalmosBitVec(0xDEAD0000 + i, size=256) for i in range(case.get("rest", 0))]
+    ex.st.stack.extend(junk)
     ex.st.stack.extend(reversed(vals))  # operand 0 is the top of the stack
     exs = list(w["sevm"].run(ex))
-    return finish_run(exs, case)
+    return finish_run(exs, case, junk)
 
 
 def impl_prog(case):
@@ -777,13 +783,13 @@ def gen_l2(tier, r, B):
                     v2 = pick(r, B, "b" if k2 >= 2 else roles[1])
                     if op == "EXP" and k1 == 0 and k2 == 0 and exp_work(v1, v2) > WORK_LIMIT_INPROC:
                         v2 = v2 % 4096
-                    c = {"lvl": "L2", "op": op, "ops": [[k1, v1], [k2, v2]]}
+                    c = {"lvl": "L2", "op": op, "ops": [[k1, v1], [k2, v2]], "rest": r.choice([0, 0, 1, 3])}
                     cases.append(add_valuations(r, B, c, 2 if op == "EXP" else nextra, roles))
     for op in OPS1:
         for k1 in range(4):
             for _ in range(3 * per if k1 < 2 else 4):
                 v1 = pick(r, B, "b" if k1 >= 2 else "w")
-                c = {"lvl": "L2", "op": op, "ops": [[k1, v1]]}
+                c = {"lvl": "L2", "op": op, "ops": [[k1, v1]], "rest": r.choice([0, 0, 1, 3])}
                 cases.append(add_valuations(r, B, c, nextra, "w"))
     for op in OPS3:
         roles = ROLES[op]
@@ -793,7 +799,7 @@ def gen_l2(tier, r, B):
                     reps = (per // 2) if max(k1, k2, k3) < 2 else 2
                     for _ in range(max(2, reps)):
                         vs = [pick(r, B, "b" if k >= 2 else roles[i]) for i, k in enumerate((k1, k2, k3))]
-                        c = {"lvl": "L2", "op": op, "ops": [[k1, vs[0]], [k2, vs[1]], [k3, vs[2]]]}
+                        c = {"lvl": "L2", "op": op, "ops": [[k1, vs[0]], [k2, vs[1]], [k3, vs[2]]], "rest": r.choice([0, 0, 1, 3])}
                         cases.append(add_valuations(r, B, c, nextra, roles))
     return cases
 
@@ -961,7 +967,8 @@ def model_calls(case):
     return calls
 
 
-ERRNAME = {2: "NotConcreteError", 3: "ZeroDivisionError", 4: "TypeError", 5: "NotImplementedError"}
+ERRNAME = {2: "NotConcreteError", 3: "ZeroDivisionError", 4: "TypeError", 5: "NotImplementedError",
+           6: "StackUnderflowError", 7: "AttributeError", 8: "ValueError", 9: "wrong-stack-depth"}
 
 
 def model_obs(case, results):
@@ -970,7 +977,7 @@ def model_obs(case, results):
     if any(m is None or not m for m in main):
         return {"st": "model-error"}
     heads = {m[0] for m in main}
-    if heads == {9}:
+    if heads == {9} and all(len(m) == 2 for m in main):
         return {"st": "slow", "work": main[0][1]}
     if len(heads) != 1:
         return {"st": "model-inconsistent"}
@@ -1147,6 +1154,10 @@ def judge(fl, case, impl, mod, latent):
         j = next(i for i, (x, y) in enumerate(zip(impl["den"], S)) if x != y)
         fl.failing_input(f"{desc}: result denotes {impl['den'][j]} under valuation {case['vals'][j]}, the EVM result is {S[j]}", case,
                          make_sig(case, "wrong-value"))
+        ok = False
+    elif not impl.get("rest_ok", True):
+        fl.failing_input(f"{desc}: stack discipline: {impl.get('depth')} word(s) on the stack afterwards, expected the result on top of the {case.get('rest', 0)} untouched word(s) below the operands", case,
+                         make_sig(case, "stack-discipline"))
         ok = False
     elif impl.get("axioms") and not all(all(row) for row in impl["axioms"]):
         fl.failing_input(f"{desc}: a path constraint added by SEVM.arith is false under a valuation (with the exact definition of the abstraction)", case,
